@@ -1,5 +1,6 @@
 """C20 - every call has exactly one outcome and the summary adds up."""
 import re
+import itertools
 import core, suites, findings
 from core import World, Line
 from gen import Gen, mode_line
@@ -195,6 +196,42 @@ def run(ctx):
                 return 'counters %s for %d failed calls' % (raw, len(idx))
             return None
         w.add('events', ('io-error-one-outcome', exp))
+        io.append(w)
+    # a write that fails when the snapshot is being stored (disk full, quota: the call runs with RLIMIT_FSIZE 0):
+    # one failure, no `added` / `updated`, the counters and the summary say so
+    for i, (kind, state) in enumerate(itertools.product(['snap', 'json', 'yaml', 'sasnap', 'sajson'], ['new', 'second', 'update'])):
+        w = World('c20full-%d' % i)
+        w.add(mode_line(False, 'true' if state == 'update' else ''))
+        w.add('cfg 1 %s - - none none' % core.hx('snaps'))
+        w.add('begin 1 %s' % core.hx(b'TestFull'))
+
+        def callop(v, kind=kind):
+            if kind in ('snap', 'sasnap'):
+                return '%s 1 1 %s' % (kind, core.hx(b'value %d' % v))
+            if kind == 'yaml':
+                return 'yaml 1 1 s %s' % core.hx(b'a: %d\n' % v)
+            return '%s 1 1 s %s' % (kind, core.hx(b'{"a":%d}' % v))
+        ok = 0
+        if state in ('second', 'update'):
+            w.add(callop(1))
+            ok = 1
+        if state == 'update':
+            w.add('end 1')
+            w.add('begin 1 %s' % core.hx(b'TestFull'))
+        w.add('fslimit')
+        j = w.add(callop(2 if state != 'new' else 1))
+        w.add('end 1')
+
+        def expf(line, raw, ww, j=j, ok=ok):
+            import re as _re
+            ev = Line(ww.impl[j]).events
+            if [k for k, _ in ev] != ['E']:
+                return 'the call whose snapshot could not be written must report exactly one failure, got %r' % [(k, v[:40]) for k, v in ev]
+            m = _re.match(r'events e=(\d+) a=(\d+) u=(\d+) p=(\d+)', raw)
+            if (int(m.group(1)), int(m.group(2)) + int(m.group(3))) != (1, ok):
+                return 'counters %s: expected one failure and %d recorded snapshot(s)' % (raw, ok)
+            return None
+        w.add('events', ('write-error-one-outcome', expf))
         io.append(w)
     run_suite(ctx, 'match.io-errors', io, known=known, use_model=False)
     import cleanworlds as cw
